@@ -566,8 +566,17 @@ func buildEvidence(pl *plan, tier string, seed uint64, outs []runOut, nviol int,
 	if len(samples) == 0 && len(outs) > 0 {
 		samples = append(samples, map[string]any{"scenario": sampleScenario(outs[0].sc)})
 	}
+	// probes: sites that some scenario of the plan switched on but no run ever parked at
+	planned := map[string]bool{}
+	for _, sc := range pl.scenarios {
+		for name, mod := range sc.Sites {
+			if mod > 0 {
+				planned[name] = true
+			}
+		}
+	}
 	var never []string
-	for _, name := range siteNames {
+	for name := range planned {
 		if sites[name] == 0 {
 			never = append(never, name)
 		}
@@ -598,7 +607,7 @@ func buildEvidence(pl *plan, tier string, seed uint64, outs []runOut, nviol int,
 	cov["faults_fired"] = faults
 	cov["probes_hit"] = probes
 	cov["yield_site_hits"] = sites
-	cov["yield_sites_never_hit"] = never
+	cov["yield_sites_switched_on_but_never_hit"] = never
 	cov["schedule_policies"] = policies
 	cov["race_reports"] = races
 	cov["third_party_race_reports_not_judged"] = thirdParty
